@@ -99,7 +99,10 @@ def build(spec, engine_cls=None, emitter=None, extra_steps=None, extra_topology=
     cls = engine_cls or MonEngine
     for j in range(spec.get('nsteps', 0)):
         from vmon.sensors import LedgerStep
-        steps['s%d' % j] = LedgerStep({'sid': 's%d' % j})
+        sp = {'sid': 's%d' % j}
+        if spec.get('parallel_steps'):
+            sp['_parallel'] = True
+        steps['s%d' % j] = LedgerStep(sp)
         topo['s%d' % j] = {'log': ('log',)}
         if spec.get('step_flow') == 'layer':      # flow steps without dependencies: one layer
             flow['s%d' % j] = []
